@@ -377,7 +377,8 @@ def steer(comp, rng, state, n_scenarios=None):
             cands = [(h - 1, x) for x in range(w)] + [(y, w - 1) for y in range(h)] + [(0, 0), (rng.randrange(h), rng.randrange(w))]
             cands = [p for p in cands if p != (ay, ax) and free(*p)]
             for p in rng.sample(cands, min(len(cands), rng.randint(1, 2))):
-                state.grid[p[0], p[1]] = Telepod(c)
+                if free(*p):  # re-checked at placement time: an earlier placement may have used up the spare beacon
+                    state.grid[p[0], p[1]] = Telepod(c)
             applied.append(sc)
         elif sc == 'door_front' and ok(Door) and free(fy, fx):
             c = rng.choice(colors)
